@@ -72,6 +72,8 @@ pub struct Obs {
     dropped: bool,
     /// stress cases: a short random busy wait inside `read_inputs` (inside the locked closure)
     jitter: u32,
+    /// poison scenario: the driver panics in `read_inputs`
+    panic_on_read: bool,
 }
 
 /// Rung by every instrumentation point so that the controller can wait without spinning.
@@ -198,6 +200,10 @@ impl IoDriver for Probe {
                 std::thread::yield_now();
             }
             g = self.ctl.m.lock().unwrap();
+        }
+        if g.panic_on_read {
+            drop(g);
+            panic!("c20 probe: injected I/O driver panic");
         }
         g.enters += 1;
         let input = g.input;
@@ -947,7 +953,7 @@ pub fn gen_cfg(rng: &mut Rng) -> CaseCfg {
         .map(|i| ResCfg {
             inc: rng.range(1, 9),
             interval: *rng.pick(&intervals),
-            scale: if rng.chance(1, 5) { *rng.pick(&[2u32, 3, 10, 1000]) } else { 1 },
+            scale: if rng.chance(1, 3) { *rng.pick(&[2u32, 3, 10, 1000]) } else { 1 },
             gated: gated && !rng.chance(1, 6),
             clk: if shared_clock { 0 } else if rng.chance(1, 5) { 0 } else { i },
             restart: rng.chance(1, 4),
@@ -1048,6 +1054,14 @@ fn gen_op(rng: &mut Rng, cfg: &CaseCfg, w: &World, pos: &[Pos], pending: &mut Ve
             break;
         }
         pick -= *wt;
+    }
+    if let Op::MApply(r, ups) = &chosen {
+        // look at the effect: a snapshot of the same names right behind the update
+        if rng.bool() {
+            let mut ns: Vec<u32> = ups.iter().map(|(n, _)| *n).collect();
+            ns.push(*rng.pick(&[3u32, 9, 4]));
+            pending.push_back(Op::MSnap(*r, ns));
+        }
     }
     if let Op::Hold(usize::MAX) = chosen {
         let a = *rng.pick(&runnable);
@@ -1179,6 +1193,15 @@ pub fn run_scripted(n: u64, rng: &mut Rng, args: &Args, stamp: Arc<AtomicU64>, o
     if fault_seen {
         out.line("tag fault");
         out.count("cases_with_fault");
+    }
+    if !w.hung && cfg.names.contains(&1) && cfg.names.contains(&2) {
+        let pa = w.shared.get("pa").as_ref().and_then(value_i64);
+        let pb = w.shared.get("pb").as_ref().and_then(value_i64);
+        if pa.is_some() && pb.is_some() && pa != pb {
+            // only a cycle that faulted between the two writes and was written back can do this
+            out.line("tag partial-publish");
+            out.count("cases_with_partial_publish");
+        }
     }
     if w.hung {
         out.line("tag hang");
@@ -1481,6 +1504,80 @@ pub fn run_stress(n: u64, rng: &mut Rng, args: &Args, stamp: Arc<AtomicU64>, out
     Ok(())
 }
 
+// ------------------------------------------------------------------------------------------------
+// Poison scenario (outside the model: panics): does a panic inside one resource's cycle take the
+// other resources down through the poisoned `SharedGlobals` mutex?
+// ------------------------------------------------------------------------------------------------
+
+pub fn run_poison(n: u64, _rng: &mut Rng, args: &Args, stamp: Arc<AtomicU64>, out: &mut Out) -> Result<(), String> {
+    let cfg = CaseCfg {
+        res: (0..2)
+            .map(|i| ResCfg { inc: 1 + i as i64, interval: 10 * MS, scale: 1, gated: false, clk: i, restart: false })
+            .collect(),
+        c0: 0,
+        p0: 0,
+        names: vec![0, 1, 2],
+    };
+    write_cfg(n, &cfg, out);
+    out.line("poison");
+    let hook = std::panic::take_hook();
+    std::panic::set_hook(Box::new(|_| {}));
+    let result = (|| -> Result<&'static str, String> {
+        let mut w = World::build(&cfg, stamp, 0, args.extra_usize("hang_s", 20) as u64, true)?;
+        let wait = |w: &World, r: usize, f: &dyn Fn(&Obs) -> bool| -> bool {
+            let t = Instant::now();
+            loop {
+                if f(&w.res[r].ctl.m.lock().unwrap()) {
+                    return true;
+                }
+                if t.elapsed() > StdDuration::from_secs(5) {
+                    return false;
+                }
+                std::thread::sleep(StdDuration::from_millis(1));
+            }
+        };
+        // both resources complete their first cycle and sleep
+        if !wait(&w, 0, &|g| g.writes >= 1 && g.in_sleep.is_some()) || !wait(&w, 1, &|g| g.writes >= 1 && g.in_sleep.is_some()) {
+            return Err("poison scenario: first cycles did not complete".into());
+        }
+        // resource 0 panics inside its locked cycle
+        w.res[0].ctl.m.lock().unwrap().panic_on_read = true;
+        let t = w.clocks[0].clock.advance(Duration::from_nanos(10 * MS));
+        w.clocks[0].now = t.as_nanos();
+        if !wait(&w, 0, &|g| g.dropped) {
+            return Err("poison scenario: the panicking thread did not end".into());
+        }
+        // resource 1 is asked for one more cycle
+        let before = w.res[1].ctl.m.lock().unwrap().writes;
+        let t = w.clocks[1].clock.advance(Duration::from_nanos(10 * MS));
+        w.clocks[1].now = t.as_nanos();
+        let moved = wait(&w, 1, &|g| g.dropped || g.writes > before);
+        let killed = w.res[1].ctl.m.lock().unwrap().dropped;
+        let state_after = w.res[1].handle.state();
+        let get_panics = std::panic::catch_unwind(std::panic::AssertUnwindSafe(|| w.shared.get("cnt"))).is_err();
+        w.release_everything();
+        let _ = w.settle(true);
+        if !moved {
+            return Ok("poison-other-stuck");
+        }
+        if killed && state_after == ResourceState::Running {
+            return Ok(if get_panics { "poison-others-killed" } else { "poison-others-killed-get-ok" });
+        }
+        Ok("poison-others-survive")
+    })();
+    std::panic::set_hook(hook);
+    match result {
+        Ok(tag) => {
+            out.line(format!("tag {tag}"));
+            out.count(tag);
+        }
+        Err(e) => return Err(e),
+    }
+    out.line("tag api");
+    out.line("end");
+    Ok(())
+}
+
 pub fn run(args: &Args) -> i32 {
     let mut out = Out::new();
     let stamp = Arc::new(AtomicU64::new(1));
@@ -1489,6 +1586,7 @@ pub fn run(args: &Args) -> i32 {
     for n in args.case_numbers() {
         let mut rng = Rng::for_case(args.seed, n);
         let res = match n % 10 {
+            0 if n == 10 => run_poison(n, &mut rng, args, stamp.clone(), &mut out),
             0 => run_api(n, &mut rng, args, stamp.clone(), &mut out),
             3 | 7 => run_stress(n, &mut rng, args, stamp.clone(), &mut out),
             _ => run_scripted(n, &mut rng, args, stamp.clone(), &mut out),
